@@ -410,6 +410,33 @@ def serve (E : ReEnv) (cfg : Cfg) (e : Entry) (w : World) (sr : SReq) : Result :
     | .serveHandleF => serveWrapper cfg sr s0 (fun s => handleWrapper cfg sr s (plainFilteredBody cfg))
   { rc := s.rc, log := s.log.reverse, world := ledger w s.rc, escaped := p, recoverCalls := n }
 
+/-! ### a routing failure that is not a `ServiceError`
+
+`RouteSelector` is an interface: a selector of the application's own, installed with
+`Container.Router` (typically a wrapper around a built-in router), may report a routing failure with
+any `error`.  container.go:243–252: the container filters run all the same; the target of that chain
+looks at the error with `switch err.(type)` and has a case for `ServiceError` only, so for any other
+error it does nothing (no service-error writer runs, nothing is written).  `dispatch` installs no
+compressor on this path.  The built-in routers only return `ServiceError`s: this is a third kind of
+routing outcome, which `routeTagged` (the model of the built-in routers) never produces, so it is a
+separate entry of the model rather than a branch of `dispatch`. -/
+
+/-- the target of the error chain when the error is not a `ServiceError`: the empty function -/
+def routerErrorTarget : Target := ⟨.errorWriter, []⟩
+
+/-- container.go:242 `dispatch` for a request that the installed `RouteSelector` refuses with an
+    error value that is not a `ServiceError` -/
+def dispatchRouterError (cfg : Cfg) (s0 : St) : St × Option Str × Nat :=
+  let (_, s1, p) := runChain (label .cfilter cfg.cfilters) routerErrorTarget {} s0
+  finishDispatch cfg s1 p
+
+/-- such a request through `Container.Dispatch` (`viaServeHTTP = false`) or `Container.ServeHTTP` -/
+def serveRouterError (cfg : Cfg) (viaServeHTTP : Bool) (w : World) (sr : SReq) : Result :=
+  let s0 := initial sr
+  let (s, p, n) : St × Option Str × Nat :=
+    if viaServeHTTP then serveWrapper cfg sr s0 (dispatchRouterError cfg) else dispatchRouterError cfg s0
+  { rc := s.rc, log := s.log.reverse, world := ledger w s.rc, escaped := p, recoverCalls := n }
+
 /-- a sequence of requests on one container: only the world is carried over -/
 def serveSeq (E : ReEnv) (cfg : Cfg) (e : Entry) : World → List SReq → List Result
   | _, [] => []
